@@ -211,6 +211,13 @@ class AppSocket:
         for fin, op, payload, masked in frames:
             self.rec.frames_written.append((self.s.now, fin, op, payload, masked))
             self.s.emit("wrote", op, payload, fin, masked)
+        # optional schedule element: a thread other than main is descheduled for `ticks` right after its write
+        # returned (a legal interleaving: the OS may preempt a thread between any two statements)
+        st = getattr(self.s, "stall_after_send", None)
+        if st and self.s.current is not None and self.s.current.name != "main":
+            self.s.stall_seen = getattr(self.s, "stall_seen", 0) + 1
+            if self.s.stall_seen == st[0] + 1:
+                self.s.block(None, self.s.now + st[1])
         return len(data)
 
     sendall = send
